@@ -90,6 +90,69 @@ impl RunIgnored {
     }
 }
 
+/// A runtime argument name that reads as a number.
+///
+/// Ordering is by value. `approx` decides unless it ties, in which case
+/// `negative` and `magnitude` compare the values exactly. This keeps the
+/// ordering total even for integers that `f64` cannot represent.
+struct ArgNumber {
+    approx: f64,
+    negative: bool,
+    magnitude: u128,
+}
+
+impl ArgNumber {
+    fn parse(name: &str) -> Option<Self> {
+        if let Ok(n) = name.parse::<u128>() {
+            Some(Self { approx: n as f64, negative: false, magnitude: n })
+        } else if let Ok(n) = name.parse::<i128>() {
+            Some(Self {
+                approx: n as f64,
+                negative: n < 0,
+                magnitude: n.unsigned_abs(),
+            })
+        } else {
+            match name.parse::<f64>() {
+                Ok(n) if !n.is_nan() => Some(Self {
+                    approx: n,
+                    negative: n < 0.0,
+                    magnitude: n.abs() as u128,
+                }),
+                _ => None,
+            }
+        }
+    }
+
+    fn cmp(&self, other: &Self) -> Ordering {
+        match self.approx.partial_cmp(&other.approx) {
+            Some(Ordering::Equal) | None => {}
+            Some(ordering) => return ordering,
+        }
+
+        match (self.negative, other.negative) {
+            (false, false) => self.magnitude.cmp(&other.magnitude),
+            (true, true) => other.magnitude.cmp(&self.magnitude),
+            (true, false) => Ordering::Less,
+            (false, true) => Ordering::Greater,
+        }
+    }
+}
+
+/// Compares runtime argument names by value if they are numbers (integers,
+/// negatives, and floats), with numbers ordered before all other names, which
+/// are compared naturally.
+///
+/// Every name belongs to exactly one of these classes, so this is a total
+/// order, which sorting requires.
+fn cmp_arg_name_values(a: &str, b: &str) -> Ordering {
+    match (ArgNumber::parse(a), ArgNumber::parse(b)) {
+        (Some(a_num), Some(b_num)) => a_num.cmp(&b_num),
+        (Some(_), None) => Ordering::Less,
+        (None, Some(_)) => Ordering::Greater,
+        (None, None) => natural_cmp(a, b),
+    }
+}
+
 /// The attribute to sort benchmarks by.
 #[derive(Clone, Copy, Default)]
 pub(crate) enum SortingAttr {
@@ -126,46 +189,7 @@ impl SortingAttr {
             let ordering = match attr {
                 SortingAttr::Kind => Ordering::Equal,
 
-                SortingAttr::Name => 'ordering: {
-                    // Compare as integers.
-                    match (a.parse::<u128>(), b.parse::<u128>()) {
-                        (Ok(a_u128), Ok(b_u128)) => {
-                            break 'ordering a_u128.cmp(&b_u128)
-                        }
-
-                        (Ok(_), Err(_)) => {
-                            if b.parse::<i128>().is_ok() {
-                                // a > b, because b is negative.
-                                break 'ordering Ordering::Greater;
-                            }
-                        }
-
-                        (Err(_), Ok(_)) => {
-                            if a.parse::<i128>().is_ok() {
-                                // a < b, because a is negative.
-                                break 'ordering Ordering::Less;
-                            }
-                        }
-
-                        (Err(_), Err(_)) => {
-                            if let (Ok(a_i128), Ok(b_i128)) =
-                                (a.parse::<i128>(), b.parse::<i128>())
-                            {
-                                break 'ordering a_i128.cmp(&b_i128);
-                            }
-                        }
-                    }
-
-                    // Compare as floats.
-                    if let (Ok(a), Ok(b)) = (a.parse::<f64>(), b.parse::<f64>())
-                    {
-                        if let Some(ordering) = a.partial_cmp(&b) {
-                            break 'ordering ordering;
-                        }
-                    }
-
-                    natural_cmp(a, b)
-                }
+                SortingAttr::Name => cmp_arg_name_values(a, b),
 
                 SortingAttr::Location => {
                     let a: *const &str = a;
